@@ -1,6 +1,6 @@
 -------------------------- MODULE FileSystemTrace --------------------------
 (* Trace validation of recorded file-system histories against FileSystem.tla *)
-(* event: [ev, fo, fi, ok, raised, nc, nd,                                   *)
+(* event: [ev, fo, fi, ok, raised, nc, nd, on,   (on: the node is ON)        *)
 (*         folders |-> << [name, live, del, flag] >>,   (by folder id)       *)
 (*         files   |-> << [folder, name, live, del, flag] >>, (by file id)   *)
 (*         rep     |-> << "section:folder/file:list", "section:folder" >> ]  *)
@@ -13,7 +13,7 @@ EXTENDS FileSystem, TLC, TLCExt, Json, IOUtils
 Traces == JsonDeserialize(IOEnv.TRACE_FILE)
 
 VARIABLES tid, l
-tvars == <<folders, files, pend, ncreate, ndelete, tid, l>>
+tvars == <<folders, files, pend, ncreate, ndelete, on, tid, l>>
 
 T == Traces[tid].ev
 Cfg == Traces[tid].cfg
@@ -33,6 +33,7 @@ Outs(e) ==
       [] e.ev = "FolderOp"      -> FolderOpNext(e.fo)
       [] e.ev = "Tick"          -> TickNext
       [] e.ev = "PreTick"       -> Out({TRUE}, folders, files)
+      [] e.ev = "Power"         -> Out(BOOLEAN, folders, files)
       [] OTHER -> {}
 
 RepExpected(e) ==
@@ -52,7 +53,7 @@ Clauses(e) ==
       NothingVanishes |-> AppendOnly(FoOf(e.folders), FiOf(e.files)),
       ReportedAsIs   |-> SetOf(e.rep) = RepExpected(e),
       OutcomeAllowed |-> [ok |-> e.ok, fo |-> FoOf(e.folders), fi |-> FiOf(e.files)] \in Outs(e)
-                          \/ (e.ev \in {"Tick", "PreTick"} /\ \E o \in Outs(e) : o.fo = FoOf(e.folders) /\ o.fi = FiOf(e.files)),
+                          \/ (e.ev \in {"Tick", "PreTick", "Power"} /\ \E o \in Outs(e) : o.fo = FoOf(e.folders) /\ o.fi = FiOf(e.files)),
       CountersStartAtZero |-> e.ev = "PreTick" => (e.nc = 0 /\ e.nd = 0)
     ]
 Failing(e) == {c \in DOMAIN Clauses(e) : ~Clauses(e)[c]}
@@ -68,13 +69,14 @@ Step(e) ==
       [] e.ev = "FileOp"        -> FileOp(e.fo, e.fi, e.ok, fo2, fi2)
       [] e.ev = "FolderOp"      -> FolderOp(e.fo, e.ok, fo2, fi2)
       [] e.ev = "PreTick"       -> PreTick(fo2, fi2, e.nc, e.nd)
-      [] e.ev = "Tick"          -> Tick(fo2, fi2)
+      [] e.ev = "Tick"          -> Tick(fo2, fi2, e.on)
+      [] e.ev = "Power"         -> Power(fo2, fi2, e.on)
       [] OTHER -> FALSE
 
 TraceInit ==
     /\ tid \in 1..Len(Traces)
     /\ l = 1
-    /\ FsInit(FoOf(Cfg.folders), FiOf(Cfg.files))
+    /\ FsInitP(FoOf(Cfg.folders), FiOf(Cfg.files), Cfg.on, Cfg.nc, Cfg.nd)
 
 TraceNext ==
     /\ l <= Len(T)
@@ -90,7 +92,7 @@ Record ==
     IF l > Seen.pos
     THEN TLCSet(tid, [pos |-> l,
                       fail |-> IF l <= Len(T) THEN Failing(T[l]) ELSE {},
-                      st |-> [folders |-> folders, files |-> files, pend |-> pend, nc |-> ncreate, nd |-> ndelete]])
+                      st |-> [folders |-> folders, files |-> files, pend |-> pend, nc |-> ncreate, nd |-> ndelete, on |-> on]])
     ELSE TRUE
 InitRegs == \A i \in 1..Len(Traces) : TLCSet(i, [pos |-> 0, fail |-> {}, st |-> <<>>])
 ASSUME InitRegs
